@@ -87,6 +87,7 @@ MkdirAll(t, p, perm) ==
                        IF q \in new THEN Node("dir", perm, "*", << >>) ELSE t[q]]
          IN Ok(None, Touch(t2, top), "mkdirall/ok")
 
+P0 == CHOOSE x \in Perms : TRUE
 \* flag sets: acc in {"RO","WO","RW"}, c x tr ap booleans
 Flag(acc, c, x, tr, ap) == [acc |-> acc, c |-> c, x |-> x, tr |-> tr, ap |-> ap]
 OpenFile(t, p, f, perm) ==          \* OpenFile immediately followed by Close
@@ -106,6 +107,12 @@ WriteFile(t, p, d, perm) ==
   LET r == OpenFile(t, p, Flag("WO", TRUE, FALSE, TRUE, FALSE), perm) IN
   IF r.e # "ok" THEN [r EXCEPT !.b = "writefile/" \o r.b]
   ELSE Ok(None, [r.t EXCEPT ![p].d = d, ![p].mt = "*"], "writefile/" \o r.b)
+
+\* OpenFile(O_WRONLY|O_APPEND) + Write(d) + Close: the bytes land at the current end of the file
+AppendFile(t, p, d) ==
+  LET r == OpenFile(t, p, Flag("WO", FALSE, FALSE, FALSE, TRUE), P0) IN
+  IF r.e # "ok" THEN [r EXCEPT !.b = "append/" \o r.b]
+  ELSE Ok(None, [t EXCEPT ![p].d = t[p].d \o d, ![p].mt = "*"], "append/ok")
 
 Remove(t, p) ==
   IF p = Root THEN Fail("OTHER", p, t, "remove/root")
@@ -186,7 +193,6 @@ ReadFile(t, p) ==
 NoFlag == Flag("RO", FALSE, FALSE, FALSE, FALSE)
 C(op, p, q, f, perm, d, mt) ==
   [op |-> op, p |-> p, q |-> q, f |-> f, perm |-> perm, d |-> d, mt |-> mt]
-P0 == CHOOSE x \in Perms : TRUE
 AllFlags == { Flag(acc, c, x, tr, ap) :
                 acc \in {"RO", "WO", "RW"}, c \in BOOLEAN, x \in BOOLEAN,
                 tr \in BOOLEAN, ap \in BOOLEAN }
@@ -216,6 +222,7 @@ Eval(t, c) ==
     [] c.op = "mkdirall"  -> MkdirAll(t, c.p, c.perm)
     [] c.op = "open"      -> OpenFile(t, c.p, c.f, c.perm)
     [] c.op = "writefile" -> WriteFile(t, c.p, c.d, c.perm)
+    [] c.op = "append"    -> AppendFile(t, c.p, c.d)
     [] c.op = "remove"    -> Remove(t, c.p)
     [] c.op = "removeall" -> RemoveAll(t, c.p)
     [] c.op = "rename"    -> Rename(t, c.p, c.q)
